@@ -162,7 +162,6 @@ Variable valid : Z -> Prop.      (* x is a character boundary in [a, b] *)
 Variable nextb : Z -> Z.         (* the boundary after x *)
 Hypothesis Fa : F a = 0.
 Hypothesis va : valid a.
-Hypothesis vrange : forall x, valid x -> a <= x <= b.
 Hypothesis Fmono : forall x y, valid x -> valid y -> x <= y -> F x <= F y.
 Hypothesis vnext : forall x, valid x -> x < b -> valid (nextb x) /\ x < nextb x /\ F x <= F (nextb x) <= F x + 2
                                                   /\ (forall y, valid y -> x < y -> nextb x <= y).
@@ -239,10 +238,12 @@ Proof.
     destruct Hmax3 as [->|[Hp3b Hmax3]]; [lia|].
     destruct (vnext p3 V3 Hp3b) as (Vn3 & Hn3 & Hstep3 & Hmin3).
     exists spos, p3, pl, 1. split; [reflexivity|].
-    repeat (split; [first [assumption | lia | now right]|]).
+    split; [assumption|]. split; [assumption|]. split; [lia|]. split; [assumption|]. split; [now right|].
+    split; [lia|]. split; [lia|]. split; [exact Hstr|].
     split; [intros _|reflexivity]. exists p3. repeat split; try assumption; lia.
   - exists spos, p3, pl, 0. split; [reflexivity|].
-    repeat (split; [first [assumption | lia | now left]|]).
+    split; [assumption|]. split; [assumption|]. split; [lia|]. split; [assumption|]. split; [now left|].
+    split; [lia|]. split; [lia|]. split; [exact Hstr|].
     split; [lia|]. intros Hs. exfalso. revert Hs. apply (no_straddle_at_boundary p3); [exact V3|lia].
 Qed.
 
@@ -269,7 +270,8 @@ Proof.
     - rewrite (W_step text x ch) by (lia || assumption). pose proof (cw_range wcw Hw ch). lia.
     - exfalso. unfold nthz in En. destruct (x <? 0) eqn:E; [lia|].
       apply nth_error_None in En. unfold zlen in *. lia. }
-  specialize (G (W_refl text a) ltac:(lia) ltac:(intros; assumption)
+  cbn beta in G.
+  specialize (G (W_refl text a) ltac:(lia)
                 ltac:(intros x y Hx Hy Hxy; apply W_mono; lia)).
   assert (Hnext : forall x, a <= x <= b -> x < b ->
             (a <= x + 1 <= b) /\ x < x + 1 /\ W text a x <= W text a (x + 1) <= W text a x + 2 /\
